@@ -18,7 +18,7 @@ def run(ck):
                "centring, normalisation by the largest entry) and compared with the implementation's M; batch independence, symmetry, PSD, max entry, "
                "sqrtM^2 = M, finiteness; agop_best_model vs the returned predictor. non-trivial = >= 2 batches; distinct by configuration hash")
     ck.trusted += ['Coq 8.16.1 kernel + vm_compute', 'float -> Q printing', 'the gradient values themselves are validated under C04']
-    ck.assumptions += ['SVD-based matrix root: contract R R = M checked numerically', 'tolerance 1e-9 relative (float64)',
+    ck.assumptions += ['SVD-based matrix root: contract R R = M checked numerically', 'tolerance 1e-9 (float64); 1e-6 for the memory-light kernel (own-term cancellation noise, see comment in harness/c14.py)',
                        'n <= total_points_to_sample (20000): no truncation of the batch list']
     ck.check_theorems()
     rng = np.random.default_rng(ck.seed + 1414)
@@ -43,6 +43,11 @@ def run(ck):
                            get_agop_best_model=True, M_batch_size=[None, 1, 3, n][i % 4])
         except Exception as e:
             ck.violation(f'fit raised {e!r} on {desc}', dict(desc), key='fit-raise'); continue
+        # the memory-light kernel forms distances as ||x||^2 - 2 x.z + ||z||^2: a point's own term has a computed distance of order
+        # sqrt(ulp) instead of 0, is not masked, and cancels only up to ~1e-8 between the two einsums of its gradient -> 1e-9-size,
+        # batch-dependent noise in the AGOP.  Tolerance for that kernel is 1e-6, for all others 1e-9.
+        tolA = 1e-6 if kern == 'l2_high_dim' else 1e-9
+        tolQ = '(1#1000000)' if kern == 'l2_high_dim' else '(1#100000000)'
         ck.count(f'kernel={kern}'); ck.count('diag' if diag else 'full'); ck.count(f'centring={centring}'); ck.count(f'outputs={nout}')
         mat = m.sqrtM if m.use_sqrtM else m.M
         with xr.quiet():
@@ -64,7 +69,7 @@ def run(ck):
                     probs.append('AGOP not positive semi-definite')
             # kernels that consume a root get 1e-8 added to the diagonal by the matrix-power routine, in place, so the stored / returned M carries it
             ridge = 1e-8 if (m.use_sqrtM and not diag) else 0.0
-            if not centring and abs(Mb.max() - 1.0) > 1e-9 + ridge and np.abs(Gt).max() > 1e-12:
+            if not centring and abs(Mb.max() - 1.0) > tolA + ridge and np.abs(Gt).max() > 1e-12:
                 probs.append(f'largest entry of the normalised AGOP is {Mb.max()}, not 1')
             # independent statement-level recomputation (no centring): sum over points and outputs of g g^T, divided by its max
             if not centring:
@@ -73,7 +78,7 @@ def run(ck):
                 S = S / (S.max() + 1e-30)
                 if not diag and m.use_sqrtM:
                     S = S + 1e-8 * np.eye(d)
-                if np.max(np.abs(S - Mb)) > 1e-9:
+                if np.max(np.abs(S - Mb)) > tolA:
                     probs.append(f'AGOP differs from the normalised sum of gradient outer products by {np.max(np.abs(S - Mb)):.3g} at batch size {b}')
             for p_ in probs:
                 ck.violation(p_ + f' (batch size {b}) on {desc}', dict(desc, b=b, problem=p_), key=json.dumps(dict(site='agop', what=p_[:25], centring=centring)))
@@ -81,9 +86,9 @@ def run(ck):
             # Coq: model on the implementation's own gradients
             rq = coq_Q(Fraction(1, 10 ** 8)) if (m.use_sqrtM and not diag) else '0'
             if diag:
-                coq = f'Qlist_close (1#100000000) (normalise_vec (agop_diag {d}%nat {coq_bool(centring)} {b}%nat {coq_list([coq_Qmat(p) for p in Gp])})) {coq_Qlist(Mb.tolist())}'
+                coq = f'Qlist_close {tolQ} (normalise_vec (agop_diag {d}%nat {coq_bool(centring)} {b}%nat {coq_list([coq_Qmat(p) for p in Gp])})) {coq_Qlist(Mb.tolist())}'
             else:
-                coq = f'mat_close (1#100000000) (add_ridge {rq} (normalise_mat (agop {d}%nat {coq_bool(centring)} {b}%nat {coq_list([coq_Qmat(p) for p in Gp])}))) {coq_Qmat(Mb.tolist())}'
+                coq = f'mat_close {tolQ} (add_ridge {rq} (normalise_mat (agop {d}%nat {coq_bool(centring)} {b}%nat {coq_list([coq_Qmat(p) for p in Gp])}))) {coq_Qmat(Mb.tolist())}'
             cid = len(cases); cases.append((cid, coq)); meta[cid] = dict(desc, b=b)
         # diagonal mode is the diagonal of the full matrix (same gradients, same centring option, any number of outputs)
         with xr.quiet():
@@ -91,14 +96,14 @@ def run(ck):
             Ad = m.kernel_obj.get_agop_diag(m.centers, m.centers, cf, mat, center_grads=centring).double().numpy()
             Afull = m.kernel_obj.get_agop(m.centers, m.centers, cf, mat, center_grads=centring).double().numpy()
         devd = float(np.max(np.abs(Ad - np.diag(Afull))))
-        if devd > 1e-9 * (1 + float(np.abs(Afull).max())):
+        if devd > tolA * (1 + float(np.abs(Afull).max())):
             ck.violation(f'diagonal-mode AGOP is not the diagonal of the full AGOP (max dev {devd:.3g}; {nout} outputs, centring={centring}) on {desc}',
                          dict(desc, diag_mode=Ad.tolist(), diagonal_of_full=np.diag(Afull).tolist()), key=json.dumps(dict(site='diag-vs-full', centring=centring)))
         # batch-size independence
         ref = results[n]
         for b, Mb in results.items():
             dev = float(np.max(np.abs(Mb - ref)))
-            if dev > 1e-9:
+            if dev > tolA:
                 ck.violation(f'AGOP depends on the accumulation batch size: max difference {dev:.3g} between batch sizes {b} and {n} (centring={centring}) on {desc}',
                              dict(desc, b=b, dev=dev), key=json.dumps(dict(site='batch-dependence', centring=centring)))
         # stored root squares back to the stored matrix; diagonal mode is the diagonal of the full matrix; AGOP of the returned predictor
@@ -109,7 +114,7 @@ def run(ck):
                 ck.violation(f'stored root does not square back to the stored feature matrix (max dev {np.max(np.abs(RR - Mm)):.3g}) on {desc}', dict(desc), key='root')
         with xr.quiet():
             fresh = m.fit_M(m.centers, nout, M_batch_size=n, inplace=False).double().numpy()
-        if np.max(np.abs(fresh - m.agop_best_model.double().numpy())) > 1e-9:
+        if np.max(np.abs(fresh - m.agop_best_model.double().numpy())) > tolA:
             ck.violation(f'agop_best_model is not the AGOP of the returned predictor on {desc}', dict(desc), key='agop-best')
         if not diag and not centring:
             md = xr.RealRFM(kernel=kern, iters=0, bandwidth=2.0, exponent=[1.0, 1.3][i % 2], device='cpu', diag=False, verbose=False, **extra)
